@@ -228,6 +228,7 @@ def check(rep, tier, replay=None):
     rep.unit("umbrella TU filtered SO2 / SO3 / Impl")
     check_g1(rep, A.index(d["smooth::SO2"]))
     c15.check_r3(rep, d["smooth::SO2"] + d["SO3"])
+    c15.check_r5(rep, d["smooth::SO2"] + d["SO3"])
     # canonical hemisphere of every conversion that produces an SO3 part
     c15.check_r1(rep, tier, only_conversions=True)
     c17e.run(rep, tier)
